@@ -14,7 +14,7 @@ DEMO=$(ls "$SRC" | grep -v -e patch.diff -e meta.json | head -1)
 DEMOCMD=$(python3 -c "import json;print(json.load(open('$SRC/meta.json')).get('demo_cmd',''))")
 PKG=$(echo "$DEMOCMD" | grep -o '\./[a-z]*/ *$' | tr -d ' ' | tail -1)
 [ -z "$PKG" ] && PKG=$(echo "$DEMOCMD" | grep -o '\./[a-z]*/' | tail -1)
-RUN=$(echo "$DEMOCMD" | grep -o '\-run [A-Za-z0-9_|]*' | tail -1)
+RUN=$(echo "$DEMOCMD" | tr -d "'\"" | grep -o '\-run [A-Za-z0-9_|]*' | tail -1)
 TAGS=""; echo "$DEMOCMD" | grep -q 'tags verif' && TAGS="-tags verif"
 res() { echo "$1" >> "$WT/.confirm.log"; echo "$1"; }
 : > "$WT/.confirm.log"
@@ -58,5 +58,5 @@ json.dump(m,open(sys.argv[2],'w'),indent=1)
 PY
   echo "KEPT $NAME"
 else
-  echo "REJECTED $NAME"; tail -5 "$WT/.demo_clean.out" "$WT/.build.out" | cut -c1-300
+  echo "REJECTED $NAME"; tail -n 5 "$WT/.demo_mut.out" | cut -c1-300
 fi
